@@ -194,7 +194,7 @@ func quiesce() {
 			if i := bytes.IndexByte(g, '\n'); i >= 0 {
 				first = g[:i]
 			}
-			if !bytes.Contains(first, []byte("[select")) || bytes.Contains(g, []byte(".doSyncLocked")) {
+			if !bytes.Contains(first, []byte("[select")) { // parked on the timer of wait.Until (a running flush is never in a select)
 				busy = true
 			}
 		}
@@ -220,7 +220,7 @@ type runner struct {
 
 func (r *runner) newStore(shard int, wt bool) {
 	if r.store != nil {
-		k8sstore.VerifAbandon(r.store)
+		abandon(r.store)
 	}
 	period := hugePeriod
 	if wt {
@@ -503,7 +503,7 @@ func runImpl(cs *Case) (*implRun, *failure) {
 	}
 	r.sim = newSim(cs.Init, nextRvOf(cs.Init), cs.Script, crashAt)
 	r.newStore(cs.Shard, cs.WT)
-	defer func() { k8sstore.VerifAbandon(r.store) }()
+	defer func() { abandon(r.store) }()
 	out := &implRun{}
 	for _, op := range cs.Ops {
 		if op.Op == "restart" {
